@@ -125,8 +125,29 @@ macro_rules! eq_only {
     }};
 }
 
+// what is being evaluated, kept in a side file: if the process dies inside the crate (stack overflow,
+// abort) the driver turns it into a `crash` record -- data for the laws, not a tool error
+pub static INTENT: std::sync::Mutex<Option<std::fs::File>> = std::sync::Mutex::new(None);
+pub fn intent(mode: &str, l: &[u8], r: &[u8]) {
+    use std::io::{Seek, Write as _};
+    if let Ok(mut g) = INTENT.lock() {
+        if let Some(f) = g.as_mut() {
+            let mut s = String::new();
+            let _ = write!(s, "{{\"k\":\"crash\",\"mode\":\"{}\",\"l\":", mode);
+            jb(&mut s, l);
+            s.push_str(",\"r\":");
+            jb(&mut s, r);
+            s.push_str("}\n");
+            let _ = f.seek(std::io::SeekFrom::Start(0));
+            let _ = f.set_len(0);
+            let _ = f.write_all(s.as_bytes());
+        }
+    }
+}
+
 // a comparison that panics is recorded (law no_panic), the run goes on
 fn cmp_pair(out: &mut String, x: &[u8], y: &[u8], rep: usize) {
+    intent("cmp", x, y);
     let keep = out.len();
     if std::panic::catch_unwind(std::panic::AssertUnwindSafe(|| cmp_pair_inner(out, x, y, rep))).is_err() {
         out.truncate(keep);
@@ -258,6 +279,7 @@ fn fp<F: FnOnce() -> String>(f: F) -> String {
 }
 
 fn fmt_case(out: &mut String, d: &[u8], rep: usize) {
+    intent("fmt", d, &[]);
     let br = bytes_reps(d);
     let mr = mut_reps(d);
     let (bn, b) = &br[rep % br.len()];
@@ -313,6 +335,7 @@ fn main() {
     let seed: u64 = args.get(3).and_then(|s| s.parse().ok()).unwrap_or(1);
     let big = args.get(4).map(|s| s == "thorough").unwrap_or(false);
     let mut f = std::io::BufWriter::new(std::fs::File::create(&outp).expect("create out"));
+    *INTENT.lock().unwrap() = std::fs::File::create(format!("{}.intent", outp)).ok();
     let mut out = String::new();
     let mut rng = Rng(seed.wrapping_mul(0x9E3779B97F4A7C15) | 1);
     match mode {
